@@ -58,6 +58,11 @@ def plan(tier):
             continue
         for n in sorted({1, (L - 16) // 120}):
             cases.append({"spec": {**BASE, "leader": {"n_att": n, "att_len": L}}, "label": f"attitude points={n} record length {L}"})
+    # leader / volume directory files with bytes behind their last record
+    for which in ("led", "vol"):
+        for pad in (1, 360, 512, 5000):
+            cases.append({"spec": {**BASE, "pad_files": {which: [pad, 32]}}, "label": f"{which} file padded by {pad} blanks"})
+            cases.append({"spec": {**BASE, "pad_files": {which: [pad, 0]}}, "label": f"{which} file padded by {pad} NUL bytes"})
     for n_mp in (0, 1):
         for level in ("1.1", "1.5", "3.1"):
             cases.append({"spec": {**BASE, "level": level, "leader": {"n_mp": n_mp}}, "label": f"map projection records={n_mp} level {level}"})
@@ -144,14 +149,44 @@ def trailer_plan():
     return cases
 
 
+def execute_optimized(case):
+    """the same framing cases in an interpreter started with -O (assert statements are compiled away)"""
+    import json
+    import os
+    import subprocess
+    import sys
+
+    e = {**os.environ, "PYTHONPATH": str(env.VERIF), "PYTHONOPTIMIZE": "1"}
+    e.pop("XDG_CACHE_HOME", None)
+    code = "import json,sys; from mc.checks import c05; cases=json.loads(sys.argv[1]); out=[c05.execute(c) for c in cases]; print('RESULT'+json.dumps({'optimize': sys.flags.optimize, 'out': [{'ok': o['ok'], 'failures': o['failures'][:2]} for o in out]}, default=repr))"
+    r = subprocess.run([sys.executable, "-O", "-c", code, json.dumps(case["cases"])], capture_output=True, text=True, cwd=str(env.VERIF), env=e, timeout=900)
+    line = next((l for l in r.stdout.splitlines() if l.startswith("RESULT")), None)
+    if line is None:
+        raise core.HarnessError(f"-O leg produced no result: {r.stderr[-600:]}")
+    doc = json.loads(line[len("RESULT") :])
+    if not doc["optimize"]:
+        raise core.HarnessError("the -O leg did not run optimized")
+    fails = []
+    for c, o in zip(case["cases"], doc["out"]):
+        for f in o["failures"]:
+            f["detail"] = f"[python -O] {f['detail']}"
+            f["sig"] = {**f["sig"], "optimize": 1}
+            f["case"] = {"fn": "execute_optimized", "cases": [c]}
+            fails.append(f)
+    return {"ok": not fails, "failures": fails[:4], "outcome": "optimized-ok" if not fails else "optimized-mismatch", "nontrivial": True}
+
+
 def run(res, tier, seed):
     res.rule = (
         "attitude points 1..136 and every count for record lengths 136/256/1000; channels 1..16 (2 levels); facility records 1-4"
         " each with every length 66..130 and 1000/5000/100000, alone and all equal, all equal for every length up to 2600 (quick) /" " 20000 (thorough) and 2^12..2^17 +-70; attitude record lengths 137..699 (quick) / ..2999 with 1 and the maximal number of points; map projection 0/1 x 3 levels;"
-        " file pointers 0..12; 3 combined extremes; trailer with 0..7 low-resolution images in every rotation of 7 distinct sizes"
+        " file pointers 0..12; leader / volume files padded behind their last record; 13 framing cases again under python -O; 3 combined extremes; trailer with 0..7 low-resolution images in every rotation of 7 distinct sizes"
         " (1/2/4 bytes per sample). Every case is a structurally distinct file compared on the whole tree / every trailer image."
     )
     res.assumptions = ["the orientation of trailer image shapes is not pinned by the property (compared as a multiset)"]
     core.run_cases(res, __name__, plan(tier))
+    sample = [c for c in plan(tier) if c["label"] in ("attitude points=1 (record 16384)", "attitude points=136 (record 16384)", "channels=1", "channels=16", "all facility records length 66", "all facility records length 1000", "file pointers=0", "file pointers=12", "map projection records=0 level 1.5", "map projection records=1 level 1.5") or c["label"].startswith("combined")]
+    for idx, case, out in core.pool_map(__name__, "execute_optimized", [{"cases": sample[i : i + 4]} for i in range(0, len(sample), 4)], chunksize=1):
+        res.record({"fn": "execute_optimized", "n": len(case["cases"])}, out, order=2 * 10**6 + idx)
     for idx, case, out in core.pool_map(__name__, "execute_trailer", trailer_plan(), chunksize=4):
         res.record(case, out, order=10**6 + idx)
